@@ -1,5 +1,6 @@
 import Spake2Verif.Proofs.UtilProofs
 import Spake2Verif.Proofs.PropAuxB1
+import Spake2Verif.Proofs.GroupShapeTie
 /-!
 # C15 — Number, scalar and element encodings are fixed-width bijections
 
@@ -233,5 +234,29 @@ example : ∃ e, (edGroup ed25519).dec ((edGroup ed25519).enc (edGroup ed25519).
 
 example : (edGroup ed25519).scalarEnc 258 = .ok (natToLE 32 258) :=
   (scalar_codec_ed ed25519 curveOK_gen 258 (by decide) (by decide +kernel)).1
+
+/-! ### Tie A for the scalar codecs of both groups -/
+
+/-- `IntegerGroup.bytes_to_scalar` (length assertion, `bytes_to_number`, `assert 0 <= i < q`) and `scalar_to_bytes`
+(`number_to_bytes(i, q)`), the Ed25519 `bytes_to_scalar` (`assert len(s) == 32`, little-endian, no range check) and
+`scalar_to_bytes` (`y % L`, `assert 0 <= y < 2**256`, 32 bytes little-endian), and the two size attributes ARE the
+translation `Gen/GroupShape.lean` of the current source -/
+theorem scalar_codecs_are_translated :
+    (∀ (P : IntGroupParams) (b : Bytes),
+      (intGroup P).scalarDec b = GroupShape.IntShape.bytes_to_scalar GroupShapeTie.modelPrims P.p P.q P.g b) ∧
+    (∀ (P : IntGroupParams), 0 < P.q → ∀ (i : Int),
+      (intGroup P).scalarEnc i = GroupShape.IntShape.scalar_to_bytes GroupShapeTie.modelPrims P.p P.q P.g i) ∧
+    (∀ (P : IntGroupParams), ((intGroup P).scalarSize : Int) = GroupShape.IntShape.scalar_size_bytes P.p P.q P.g ∧
+      ((intGroup P).elemSize : Int) = GroupShape.IntShape.element_size_bytes P.p P.q P.g) ∧
+    (∀ (c : Curve) (b : Bytes), (edGroup c).scalarDec b =
+      GroupShape.EdGroupShape.g_bytes_to_scalar GroupShapeTie.modelPrims c.Q c.L c.d c.I (Ed25519.zeroPt c) b) ∧
+    (∀ (c : Curve) (y : Int), (edGroup c).scalarEnc y =
+      GroupShape.EdGroupShape.g_scalar_to_bytes GroupShapeTie.modelPrims c.Q c.L c.d c.I (Ed25519.zeroPt c) y) ∧
+    (∀ (c : Curve), ((edGroup c).scalarSize : Int) = GroupShape.EdGroupShape.g_scalar_size_bytes ∧
+      ((edGroup c).elemSize : Int) = GroupShape.EdGroupShape.g_element_size_bytes) :=
+  ⟨GroupShapeTie.int_scalarDec_tie, GroupShapeTie.int_scalarEnc_tie,
+   fun P => (GroupShapeTie.int_consts_tie P).2.2.2,
+   fun c => (GroupShapeTie.ed_codecs_tie c).1, fun c => (GroupShapeTie.ed_codecs_tie c).2.1,
+   fun c => (GroupShapeTie.ed_codecs_tie c).2.2.2⟩
 
 end Spake2Verif.C15
